@@ -48,11 +48,12 @@ Qed.
    are not reserved: every symbol and every local keeps its name *)
 Theorem build_identity scopes locals :
   Forall (Forall (fun e => is_kept reserved e = true)) scopes ->
-  (forall id n, In (id, n) locals -> in_str n reserved = false) ->
+  (forall id n, In (id, n) locals ->
+     in_str n (gvar_names (flat_map (kept_assignments reserved) scopes) ++ reserved) = false) ->
   build reserved scopes locals = Some (flat_map (kept_assignments reserved) scopes, locals).
 Proof.
   intros Hs Hl. unfold build. rewrite (assign_scopes_identity scopes Hs). cbn [app].
-  rewrite (assign_locals_identity locals (map snd locals) reserved [] Hl). reflexivity.
+  rewrite (assign_locals_identity locals (map snd locals) _ [] Hl). reflexivity.
 Qed.
 
 (* the scope as the second compilation sees it: every symbol under the name it was given, one symbol per name *)
